@@ -107,3 +107,53 @@ Qed.
 
 Lemma lzw_table_bytes_eq : lzw_table_bytes = 20480.
 Proof. reflexivity. Qed.
+
+(* ---- the progressive pass cap ---- *)
+
+Definition pw_inv (st : pwork) : Prop := 0 <= w_visits st <= pass_cap st /\ 0 <= w_total st.
+
+Lemma scan_fast_iter : forall n st, pw_inv st ->
+  scan_iter n st = scan_fast (Z.of_nat n) st.
+Proof.
+  induction n as [|n IH]; intros st (Hv & Ht); unfold scan_fast.
+  - cbn [scan_iter Z.of_nat]. rewrite Z.add_0_r. destruct (w_visits st <=? pass_cap st) eqn:E; [|lia].
+    destruct st; reflexivity.
+  - cbn [scan_iter]. unfold pass_cap in *. cbn [w_visits w_total].
+    destruct (jpeg_maxProgPasses * w_total st <? w_visits st + 1) eqn:E1.
+    + destruct (w_visits st + Z.of_nat (S n) <=? jpeg_maxProgPasses * w_total st) eqn:E2; [lia|].
+      f_equal. f_equal. lia.
+    + rewrite IH by (unfold pw_inv, pass_cap; cbn [w_visits w_total]; lia).
+      unfold scan_fast, pass_cap. cbn [w_visits w_total].
+      replace (w_visits st + 1 + Z.of_nat n) with (w_visits st + Z.of_nat (S n)) by lia.
+      destruct (w_visits st + Z.of_nat (S n) <=? jpeg_maxProgPasses * w_total st) eqn:E2; [reflexivity|].
+      f_equal. f_equal. lia.
+Qed.
+
+(* however many scans, of whatever kind: the blocks walked never exceed
+   maxProgPasses x (blocks allocated) + 1 *)
+Lemma scan_fast_bound n st : pw_inv st -> 0 <= n ->
+  let '(st', ok) := scan_fast n st in
+  w_total st' = w_total st /\ w_visits st <= w_visits st' <= pass_cap st' + 1 /\ (ok = true -> pw_inv st').
+Proof.
+  intros (Hv & Ht) Hn. unfold scan_fast, pw_inv, pass_cap in *.
+  destruct (w_visits st + n <=? jpeg_maxProgPasses * w_total st) eqn:E; cbn [w_visits w_total]; repeat split; try lia; try discriminate.
+Qed.
+
+Theorem run_scans_bound : forall scans st, pw_inv st ->
+  Forall (fun s => 0 <= fst s /\ 0 <= snd s) scans ->
+  let '(st', ok) := run_scans scans st in
+  w_total st <= w_total st' /\ 0 <= w_visits st' <= jpeg_maxProgPasses * w_total st' + 1.
+Proof.
+  induction scans as [|[fresh n] r IH]; intros st Hi Hs; cbn [run_scans].
+  - destruct Hi as (Hv & Ht). unfold pass_cap in Hv. lia.
+  - inversion Hs as [|? ? (Hf & Hn) Hr]; subst. cbn [fst snd] in *.
+    set (st0 := PW (w_visits st) (w_total st + fresh)).
+    assert (Hi0 : pw_inv st0).
+    { destruct Hi as (Hv & Ht). unfold pw_inv, pass_cap, st0 in *. cbn [w_visits w_total]. unfold jpeg_maxProgPasses in *. nia. }
+    pose proof (scan_fast_bound n st0 Hi0 Hn) as Hb.
+    destruct (scan_fast n st0) as [st' ok]. destruct Hb as (H1 & H2 & H3).
+    destruct ok.
+    + specialize (IH st' (H3 eq_refl) Hr). destruct (run_scans r st') as [st'' ok'].
+      unfold st0 in H1. cbn [w_total] in H1. lia.
+    + unfold pass_cap, st0 in *. cbn [w_visits w_total] in *. destruct Hi as (Hv & Ht). lia.
+Qed.
